@@ -3,6 +3,23 @@
 import json
 
 CLAIMED = {
+ "C01": dict(
+   category="proof",
+   text="Theorems in coq/Props/C01.v (closed under the global context): a source AST of the documented language (Story/Source.v), "
+        "compile_ref (the compiled story the compiler must produce), a reference meaning defined on the SOURCE (Sem/Reference.v: "
+        "what entering a passage runs and what its lines show), and the theorem that the engine model's rendering of "
+        "compile_ref equals that reference meaning for every block (lines, glue, inline conditionals, @if/@for to any depth, "
+        "statements, jumps, directives) and that entering runs the top-level commands in source order; the top-level "
+        "whitespace normalisation is covered by a _partial theorem (content without blank-line clean-up). Tie, on every run: "
+        "generated source ASTs are printed as .bard text, compiled by the real compiler and compared with compile_ref inside "
+        "Coq; compile-to-file + JSON load is compared with in-memory compilation; and the real engine's play of the really "
+        "compiled story along random choice/undo/redo histories is compared step by step with the model's play of compile_ref.",
+   note="Trusted: Coq kernel + vm_compute; compile_ref and the engine model are hand-written and tied to the code by the "
+        "correspondence run only; the .bard printer and generators of harness/c01.py; author code restricted to the "
+        "mini-Python of Lang/PyMini.v. Legacy <<if>> syntax, tags, includes, inline comments and @start are outside the AST.",
+   technique="Coq proof by structural induction on source ASTs (compile_ref then engine = reference meaning) + vm_compute "
+             "correspondence of compiler and engine against compile_ref and the model",
+   design_ref="DESIGN.md §6 C01"),
  "C20": dict(
    category="proof",
    text="Theorems in coq/Props/C20.v (closed under the global context) over a Gallina model of Wallet, Inventory, Shop, "
